@@ -270,6 +270,7 @@ def campaign(mod, tier, seed, workers=None, max_runs=None, time_cap=None, out=sy
     log = lambda s: (out.write(s + "\n"), out.flush())
     log("seed=%d property=%s tier=%s" % (seed, mod.ID, tier))
     build.ensure_build()
+    t_search = time.time()
     budget = mod.BUDGET[tier]
     nruns = max_runs if max_runs is not None else budget["runs"]
     cap = time_cap if time_cap is not None else budget["time_cap"]
@@ -294,7 +295,10 @@ def campaign(mod, tier, seed, workers=None, max_runs=None, time_cap=None, out=sy
                     harness_errors.append(rec)
                 else:
                     recs[rec["idx"]] = rec
-                if time.time() - t0 > cap:
+                # the wall-clock cap is a safety net only: it does not include the build, and it never
+                # cuts a batch below a minimum number of runs (a slow machine must not turn into a
+                # vacuous "clean" verdict)
+                if time.time() - t_search > cap and len(recs) >= min(nruns, budget.get("min_runs", 300)):
                     stopped_early = True
                     break
             pool.terminate()
